@@ -192,6 +192,9 @@ static void b_setopt_str(unsigned n)
 	{
 		const char *src = hascb ? (g_pcb_ret == 0 ? g_pcb_str : NULL) : (nulltext ? NULL : text);
 		CHECK("C14,C09", src != NULL || r == NULL, "string option: no text (or a failing / empty-handed callback) fails the assignment");
+#ifdef CFGV_NO_ALLOC_FAILURE
+		CHECK("C14,C09,C01", src == NULL || r != NULL, "string option: a text (or the string an accepting callback produced) is stored (no allocation failure in this unit)");
+#endif
 		if (src == NULL && n == 1 && !APPENDS(n)) CHECK("C10", o.values[0]->string == olds && o.nvalues == 1 && o.flags == s.flags, "string option: an assignment refused for lack of a text leaves the value it held in place");
 		if (r) {
 			CHECK("C01,C16", r->string != NULL && r->string != src && strcmp(r->string, src) == 0, "string option: the slot holds a private copy of the text");
